@@ -819,6 +819,59 @@ func c05Concurrent(run *mon.Run, r *rand.Rand) {
 			nOK++
 		}
 	}
+	// first, sequentially: all inputs of one (algorithm, decoder) pass through ONE buffer that is overwritten
+	// from call to call (a reader decoding key after key from its receive buffer); a decoder that
+	// remembers its argument by reference answers for the previous content
+	for dec := 0; dec < 3; dec++ {
+		for _, alg := range []crypto.SigningAlgorithm{crypto.ECDSAP256, crypto.ECDSASecp256k1, BLS} {
+			var group []*entry
+			for _, e := range table {
+				if e.dec == dec && e.alg == alg {
+					group = append(group, e)
+				}
+			}
+			buf := make([]byte, 0, 256)
+			var kept []func() bool // objects decoded earlier must keep encoding to what they were decoded from
+			for pass := 0; pass < 3; pass++ {
+				for _, gi := range r.Perm(len(group)) {
+					e := group[gi]
+					buf = append(buf[:0], e.in...)
+					view := &entry{dec: e.dec, alg: e.alg, in: buf}
+					ok, back := decode(view)
+					run.Eval(1)
+					if ok != e.ok || !bytes.Equal(back, e.back) {
+						run.Violate("C05:reused-buffer-decoding-differs", fmt.Sprintf("decoder %d of algorithm %s on input %x read from a buffer that held other inputs before: (accepted=%v, re-encoding %x), from a fresh slice it gives (accepted=%v, re-encoding %x)", e.dec, e.alg, e.in, ok, back, e.ok, e.back), map[string]any{"decoder": e.dec, "alg": e.alg.String(), "input": mon.Hex(e.in)})
+						return
+					}
+					if ok && e.dec != 0 && len(kept) < 8 {
+						want := append([]byte{}, e.back...)
+						var pk crypto.PublicKey
+						if e.dec == 1 {
+							pk, _ = crypto.DecodePublicKey(e.alg, buf)
+						} else {
+							pk, _ = crypto.DecodePublicKeyCompressed(e.alg, buf)
+						}
+						dd := e.dec
+						if pk != nil {
+							kept = append(kept, func() bool {
+								if dd == 1 {
+									return bytes.Equal(pk.Encode(), want)
+								}
+								return bytes.Equal(pk.EncodeCompressed(), want)
+							})
+						}
+					}
+				}
+			}
+			for _, f := range kept {
+				if !f() {
+					run.Violate("C05:decoded-key-follows-callers-buffer", fmt.Sprintf("a %s public key decoded from a buffer no longer encodes to the bytes it was decoded from after the buffer was reused", alg), nil)
+					return
+				}
+			}
+		}
+	}
+	run.Shape("reused-buffer-decoding")
 	iters := run.Pick(4000, 60000)
 	var wg sync.WaitGroup
 	var bad atomic.Int64
